@@ -268,9 +268,10 @@ TABLES = 1 if os.environ.get('VERIF_C13_TABLES') == 'orig' else 0
 def to_val(case):
     op = case['op']
     st = 1 if case.get('df') else 0
+    unw = lambda o: 1 if isinstance(o, dict) and o.get('unw') else 0
     if op in UOPS:
-        return [2, kind_code(case['l']), OPCODE[op], st, TABLES]
-    return [1, kind_code(case['l']), kind_code(case['r']), OPCODE[op], st, TABLES]
+        return [2, kind_code(case['l']), OPCODE[op], st, TABLES, unw(case['l'])]
+    return [1, kind_code(case['l']), kind_code(case['r']), OPCODE[op], st, TABLES, unw(case['l']), unw(case['r'])]
 
 
 NF_NAMES = {'bool': 'bool', 'int8': 'int8', 'int16': 'int16', 'int32': 'int32', 'int64': 'int64', 'uint8': 'uint8',
@@ -285,23 +286,27 @@ def dtype_to_str_oracle(dt):
     raise ValueError('Unsupported dtype')
 
 
-def eval_sym(s, env):
+def eval_sym(s, env, descs=None):
     """interpret a symbolic numpy value (Model/Dispatch.v `sym`) with the real numpy"""
     np = _npmod()
     t = s[0]
+    if t == 6:
+        return np.zeros(0, dtype=descs[s[1]]['dt'])
+    if t == 7:
+        return np.zeros(0, dtype=np.asarray(eval_sym(s[1], env, descs)).dtype)
     if t == 0:
         return env[s[1]]
     if t == 1:
-        return _pyop(s[1])(eval_sym(s[2], env), eval_sym(s[3], env))
+        return _pyop(s[1])(eval_sym(s[2], env, descs), eval_sym(s[3], env, descs))
     if t == 2:
-        return _pyop(s[1])(eval_sym(s[2], env))
+        return _pyop(s[1])(eval_sym(s[2], env, descs))
     if t == 3:
-        return np.divmod(eval_sym(s[2], env), eval_sym(s[3], env))[s[1]]
+        return np.divmod(eval_sym(s[2], env, descs), eval_sym(s[3], env, descs))[s[1]]
     if t == 4:
-        return eval_sym(s[1], env).item()
+        return eval_sym(s[1], env, descs).item()
     if t == 5:
-        nf = dtype_to_str_oracle(eval_sym(s[1], env).dtype)
-        return np.asarray(eval_sym(s[2], env)).astype(nf)
+        nf = dtype_to_str_oracle(eval_sym(s[1], env, descs).dtype)
+        return np.asarray(eval_sym(s[2], env, descs)).astype(nf)
     raise ValueError('sym %r' % (s,))
 
 
@@ -327,11 +332,12 @@ def eval_outcome(case, v):
                 if nf[0] == 0:
                     i = nf[1]
                     d = descs[i]
-                    ok = (data == [0, i] and c == CLSCODE[d['c']])
+                    # a written operand still holds its array, a never-written one still holds nothing
+                    ok = (data == ([] if d.get('unw') else [[0, i]]) and c == CLSCODE[d['c']])
                     fields.append(('operand', i, ok))
                 else:
-                    nfs = dtype_to_str_oracle(eval_sym(nf[1], env).dtype)
-                    arr = eval_sym(data, env)
+                    nfs = dtype_to_str_oracle(eval_sym(nf[1], env, descs).dtype)
+                    arr = eval_sym(data[0], env, descs) if data else np.zeros(0, dtype=nfs)
                     arr = np.asarray(arr)
                     fields.append(('new', [CLASSES[c], nfs, str(arr.dtype), enc_values(arr)]))
 
